@@ -161,8 +161,26 @@ class StmtMixin:
                     name = ast.unparse(e)
             except Unsupported:
                 name = ast.unparse(e)
+        elif self.handler_excs:
+            # a bare raise in a handler re-raises what the handler caught
+            for name in self.handler_excs[-1]:
+                self.log_raise(name, env, s, kind="explicit")
+            env.dead = True
+            return
         else:
             name = "reraise"
+        if isinstance(s.exc, ast.Call):
+            # the arguments of the exception are ordinary expressions: their reads and may-raise operations count
+            # (a failing one replaces the intended exception by IndexError / struct.error / ...)
+            for a in list(s.exc.args) + [k.value for k in s.exc.keywords]:
+                if env.dead:
+                    break
+                try:
+                    self.ev(a, env, mod, fn)
+                except Unsupported:
+                    pass
+            if env.dead:
+                return
         self.log_raise(name, env, s, kind="explicit")
         env.dead = True
 
@@ -570,7 +588,7 @@ class StmtMixin:
         if not env.dead and s.orelse:
             self.block(s.orelse, env, mod, fn, exits)
         outs = [] if env.dead else [env.clone()]
-        for h, (names, bucket) in zip(s.handlers, handlers):
+        for hi, (h, (names, bucket)) in enumerate(zip(s.handlers, handlers)):
             if not bucket:
                 continue
             henv = bucket[0] if len(bucket) == 1 else join_envs(bucket, [conj(b.pc) for b in bucket])
@@ -588,7 +606,12 @@ class StmtMixin:
             henv.dead = False
             if h.name:
                 henv.vars[h.name] = self.new_object("<exception>", symbolic=True, root=None, path=h.name)
-            self.block(h.body, henv, mod, fn, exits)
+            caught = list(dict.fromkeys(frame.get("excs", {}).get(hi, []))) or list(names or ["Exception"])
+            self.handler_excs.append(caught)
+            try:
+                self.block(h.body, henv, mod, fn, exits)
+            finally:
+                self.handler_excs.pop()
             if not henv.dead:
                 outs.append(henv)
         if s.finalbody:
